@@ -104,7 +104,9 @@ def structural_replay(ctx, name, cfg, beh, pid):
     try:
         bm, steps = B.replay(cfg, qs)
     except B.ProjectionUnavailable as e:
+        # e.g. the cache refers to a node that is no longer in the tree: the object is not in ANY state of the model
         ctx.notes["projection_unavailable"] = str(e)
+        ctx.drift(f"{name} {cfg.key()} {qs}: the abstract state of the real object cannot be projected ({e})")
         return None
     d = B.compare_with_model(cfg, beh, steps)
     for m in d[:2]:
